@@ -1,0 +1,24 @@
+//go:build verif
+
+package cwriter
+
+import "sync/atomic"
+
+var verifTermSizeFn atomic.Value // of func(fd int) (w, h int, err error, ok bool)
+
+// SetVerifTermSize lets the harness answer terminal size queries (fault
+// injection and resizes without a real terminal). ok=false falls through to
+// the real query.
+func SetVerifTermSize(fn func(fd int) (int, int, error, bool)) {
+	if fn == nil {
+		fn = func(int) (int, int, error, bool) { return 0, 0, nil, false }
+	}
+	verifTermSizeFn.Store(fn)
+}
+
+func verifTermSize(fd int) (int, int, error, bool) {
+	if fn, ok := verifTermSizeFn.Load().(func(int) (int, int, error, bool)); ok {
+		return fn(fd)
+	}
+	return 0, 0, nil, false
+}
